@@ -177,6 +177,19 @@ def main(tier):
             continue
         cs[-1]["banned2"] = ["GET", "POST", "PUT", "PATCH", "DELETE", "URL", "TYPE", "INFO", "SERVER", "TAG", "ENUM"]
         groups.append({"id": "ws%d" % g, "cases": cs, "reps": 3, "readers": 0, "shared_ban": ["INCLUDE"]})
+    # projects made from ONE byte slice held in memory (kit.NewJApiFromFile): first validated by 6 goroutines at the same
+    # moment, then again in turn and next to each other.  Documents with what the library rewrites when it reads:
+    # escapes in quoted parameters, CRLF line ends in descriptions, runs of blanks in annotations
+    import c03
+    import c07
+    memtexts = [t for k, t in c03.special_docs() if k in ("quoted_escapes",)]
+    memtexts += [mcr for nm, inl, mcr in c07.twice_pairs() if "three_hosts" in nm]
+    memtexts += [t.replace("\n", "\r\n") for t in texts[:6]] + texts[6:12]
+    memtexts.append('JSIGHT 0.3\nINFO\n  Title "a \\"b\\" \\\\ c"\n  Version "\\\\1"\n  Description\n    l1\r\n    l2\r\n    l3\r\n    l4\nGET "/p\\\\q" //  two   blanks \t tab\n  200 any\n')
+    for g in range(0, len(memtexts), 8):
+        groups.append({"id": "wm%d" % g, "cases": [dict(rel.case("cm%d" % (g + j), t), mem=True) for j, t in enumerate(memtexts[g:g + 8])],
+                       "reps": 3, "readers": 0, "cold": 6})
+    chk.extra["projects_from_one_byte_slice_in_memory"] = len(memtexts)
     obs4 = harness("conc", groups)
     for g in groups:
         o = obs4[g["id"]]
@@ -205,7 +218,7 @@ def main(tier):
         inp = "\n".join(json.dumps(c) for c in cases[:(60 if thorough else 15)]) + "\n"
         p = subprocess.run([common.VH + "-race", "omap"], input=inp.encode(), capture_output=True, env=env, timeout=1800)
         reps = race_reports(p.stderr.decode("utf-8", "replace"))
-        inp2 = "\n".join(json.dumps(g) for g in groups[:(12 if thorough else 3)]) + "\n"
+        inp2 = "\n".join(json.dumps(g) for g in groups[:(12 if thorough else 3)] + [g for g in groups if g["id"].startswith("wm")][:(6 if thorough else 2)]) + "\n"
         p2 = subprocess.run([common.VH + "-race", "conc"], input=inp2.encode(), capture_output=True, env=env, timeout=1800)
         reps += race_reports(p2.stderr.decode("utf-8", "replace"))
         chk.extra["race_reports"] = len(reps)
